@@ -233,18 +233,7 @@ def _len_heads(n, fix, codes):
     return out
 
 
-def _product(lists, limit):
-    res = [b""]
-    for alts in lists:
-        nxt = []
-        for pre in res:
-            for a in alts:
-                if len(pre) + len(a) <= limit:
-                    nxt.append(pre + a)
-        res = nxt
-        if not res:
-            break
-    return res
+_product = mv.product
 
 
 def encodings(v, mode="full", limit=1 << 30, child_mode=None, modes=None, path=()):
